@@ -247,6 +247,9 @@ def configs(tier):
     for i in insts:
         for pad in ((0,) if tier == "quick" else (0, 1, 2)):
             ring.append(dict(inst=i, pad=pad))
+    if tier == "quick":
+        ring.append(dict(inst=insts[0], pad=1))
+        ring.append(dict(inst=insts[3], pad=2))
     inst2 = []
     ratios = [(10, 10), (10, 20), (20, 10), (20, 30)] if tier == "thorough" else [(10, 20), (20, 10), (20, 30)]
     wins = [1, 2, 3] if tier == "thorough" else [1, 3]
@@ -257,6 +260,8 @@ def configs(tier):
                     inst2.append(dict(kind="two", rate1=r1, rate2=r2, window12=w, window21=max(1, 3 - w), ts_max=0.4, mode=m,
                                       extra_padding=pad))
     inst2.append(dict(kind="two", rate1=10, rate2=20, window12=2, window21=1, ts_max=0.4, mode="mcs", trainable=True, tmax=0.06))
+    # user-supplied (larger than minimal) buffer sizes
+    inst2.append(dict(kind="two", rate1=10, rate2=20, window12=3, window21=1, ts_max=0.4, mode="mcs", buffer_sizes={"node2": 7, "node1": [3]}))
     inst2.append(dict(kind="two", rate1=10, rate2=20, window12=2, window21=1, ts_max=0.4, mode="mcs", num_episodes=2, seed=3))
     inst2.append(dict(kind="three", rates=(10, 20, 15), windows=(2, 1, 2), ts_max=0.4, mode="mcs"))
     # a high rate ratio: more than ten slots of one kind per partition (slot names get two-digit indices; uniform generations use the scan path)
